@@ -3,6 +3,8 @@ import calendar
 import logging
 import time
 
+import voluptuous as vol
+
 from .const import SYSTEM_CHILD_ID
 from .util import Registry
 
@@ -32,9 +34,20 @@ def handle_smartsleep(msg):
             if new_value is None:
                 continue
 
-            msg_to_send = msg.gateway.create_message_to_set_sensor_value(
-                sensor, child.id, value_type, new_value
-            )
+            try:
+                msg_to_send = msg.gateway.create_message_to_set_sensor_value(
+                    sensor, child.id, value_type, new_value
+                )
+            except (ValueError, vol.Invalid) as exc:
+                _LOGGER.warning(
+                    "Not sending desired value %s of type %s to node %s child %s: %s",
+                    new_value,
+                    value_type,
+                    sensor.sensor_id,
+                    child.id,
+                    exc,
+                )
+                continue
 
             if msg_to_send is None:
                 continue
